@@ -237,3 +237,49 @@ def mt_equal(a, b, tok_fields=('word', 'pos'), edges=False, labels=True, sid=Fal
         return 'structure/labels differ: %s != %s' % (model.mt_str(model.canon_mt(a.root)),
                                                       model.mt_str(model.canon_mt(b.root)))
     return ''
+
+
+_via_counter = [0]
+
+
+def build_via_export(mt, scratch_dir):
+    """The same model tree, but produced by the real export reader (encode with the independent
+    encoder, read with trees.treeinput.export).  Such trees carry the reader's extra data
+    ('terminals' lists, 'parent_num'), so later transformations start from what users really have.
+    Requires a VROOT root.  Returns the library tree."""
+    from . import codecs
+    from trees import treeinput
+    _via_counter[0] += 1
+    path = os.path.join(scratch_dir, 'via-%d-%d.export' % (os.getpid(), _via_counter[0] % 4))
+    with open(path, 'w', encoding='utf-8') as f:
+        f.write(codecs.encode_export([mt], version=4))
+    with quiet():
+        trees_ = list(treeinput.export(path, 'utf-8', quiet=True))
+    os.unlink(path)
+    if len(trees_) != 1:
+        raise AssertionError('harness: export reader did not return exactly one tree')
+    return trees_[0]
+
+
+def perturb(t, mode='last'):
+    """Harness-side in-place change of a live tree (only .children/.parent are touched).
+    mode 'last': the last token is re-attached below the parent of the first token (or below the root
+    if it is already there); mode 'first': the first token goes below the parent of the last token.
+    Returns True if something moved.  Nodes left without children are pruned upwards."""
+    leaves = sorted(raw_leaves(t), key=lambda x: x.data['num'])
+    if len(leaves) < 2:
+        return False
+    mover, anchor = (leaves[-1], leaves[0]) if mode == 'last' else (leaves[0], leaves[-1])
+    target = anchor.parent if anchor.parent is not mover.parent else t
+    if target is mover.parent or target is None:
+        return False
+    old = mover.parent
+    old.children = [c for c in old.children if c is not mover]
+    target.children.append(mover)
+    mover.parent = target
+    while old is not t and not old.children:
+        up = old.parent
+        up.children = [c for c in up.children if c is not old]
+        old.parent = None
+        old = up
+    return True
